@@ -72,6 +72,15 @@ func Untrack(id string) {
 	recMu.Unlock()
 }
 
+// Release forgets this record unless a newer record has taken its id (real sockets reuse ports).
+func (r *ConnRec) Release() {
+	recMu.Lock()
+	if recs[r.ID] == r {
+		delete(recs, r.ID)
+	}
+	recMu.Unlock()
+}
+
 func lookup(id string) *ConnRec {
 	recMu.RLock()
 	r := recs[id]
@@ -401,6 +410,10 @@ func (s *Span) Handle(cx *layer4.Connection, next layer4.Handler) error {
 	b, _ := json.Marshal(info)
 	rec.Add(Event{Kind: "enter", Who: s.Name, Data: append([]byte(nil), cx.MatchingBytes()...), S2: string(b)})
 	err := next.Handle(cx)
+	if rec == nil {
+		// real sockets: the harness may have started tracking this connection only after the handler began
+		rec = recOf(cx)
+	}
 	rec.Add(Event{Kind: "exit", Who: s.Name, S: errString(err)})
 	rec.signalDone(s.Name)
 	return err
